@@ -235,12 +235,61 @@ class Gen:
         return "\n".join(lines)
 
 
+def nest_shape(rng, lit):
+    """2-4 accumulators with constant initial values; a nest of depth 2-3 built from for / while / if-else on the
+    parameters; each accumulator is updated at one or two randomly chosen levels (most often only the deepest);
+    afterwards each is compared with its initial value. A phi missing at any join or header of the nest for any
+    one of the variables makes one of the final conditions a wrong constant claim."""
+    nv = rng.randrange(2, 5)
+    names = ["acc%d" % i for i in range(nv)]
+    init = [lit() if rng.random() < 0.5 else str(rng.randrange(4)) for _ in names]
+    depth = rng.randrange(2, 4)
+    levels = {}
+    for v in names:
+        ls = {depth} if rng.random() < 0.6 else {rng.randrange(1, depth + 1)}
+        if rng.random() < 0.25:
+            ls.add(rng.randrange(0, depth + 1))
+        levels[v] = ls
+    rng.shuffle(names)
+
+    def updates(level):
+        out = []
+        for v in names:
+            if level in levels[v]:
+                out.append("%s %s %s;" % (v, rng.choice(["+=", "*=", "-="]), rng.choice(["1", "2", "n", "i0"]) if level else "1")
+                           if rng.random() < 0.7 else "%s = %s + %d;" % (v, v, rng.randrange(1, 4)))
+        return " ".join(out)
+
+    def build(level):
+        if level > depth:
+            return ""
+        inner = updates(level) + " " + build(level + 1)
+        kind = rng.choice(["for", "for", "while", "if", "ifelse"])
+        c = "c%d" % level
+        if kind == "for":
+            return "for (var %s = 0; %s < %s; %s++) { %s }" % (c, c, rng.choice(["n", "m", "3"]), c, inner)
+        if kind == "while":
+            return "var %s = 0; while (%s < %s) { %s %s += 1; }" % (c, c, rng.choice(["n", "m"]), inner, c)
+        if kind == "if":
+            return "if (%s > %d) { %s }" % (rng.choice(["n", "m"]), rng.randrange(3), inner)
+        return "if (%s > %d) { %s } else { %s }" % (rng.choice(["n", "m"]), rng.randrange(3), inner, updates(level) if rng.random() < 0.5 else "")
+
+    body = " ".join("var %s = %s;" % (v, x) for v, x in zip(sorted(names), [init[int(v[3:])] for v in sorted(names)]))
+    body += " var i0 = 1; " + updates(0) + " " + build(1) + " "
+    for v in names:
+        body += "if (%s == %s) { return %d; } " % (v, init[int(v[3:])], rng.randrange(5))
+    body += "return %s;" % " + ".join(names)
+    return "function f(n, m) { %s }" % body
+
+
 def targeted(rng, curve="BN254"):
     """Hand-shaped programs aimed at known weak spots (phi without default path,
     values merged at joins, loops, every operator on constants)."""
     p = PRIMES[curve]
     lit = lambda: str(rng.choice([0, 1, 2, 3, 5, p - 1, p // 2, p // 2 + 1, 255, 256, 1 << 20]))
-    k = rng.randrange(13)
+    k = rng.randrange(16)
+    if k >= 13:    # several locals changed at different depths of a nest, read after it (phi placement per variable)
+        return nest_shape(rng, lit)
     if k == 11:    # a loop as the very first statement (block 0 must stay the entry without predecessors)
         return ("function f(n) { while (n > %s) { n -= 1; } return n; }" % lit())
     if k == 12:    # a loop as the first statement of a template, on a parameter
